@@ -80,10 +80,14 @@ extern "C" void stub_analyze(CoreSMTSolver *, CRef, vec<Lit> * out, int * bt) {
     fill(out, 1 + (nondet_u8() & 1));
     int l = nondet_u8(); VASSUME(l >= 0 && l < g_level); *bt = l;
 }
+// final conflict over the assumptions: recorded, so that the frame computed from it can be checked (C01/C04)
+static int g_final_calls, g_final_n; static Lit g_final[2];
 extern "C" void stub_analyzeFinal(CoreSMTSolver *, Lit, vec<Lit> * out) {
     work();
     int n = nondet_u8() & 3; VASSUME(n <= 2);
     fill(out, n);
+    g_final_calls++; g_final_n = n;
+    for (int i = 0; i < 2; i++) g_final[i] = out->data[i];
 }
 extern "C" void stub_uncheckedEnqueue(CoreSMTSolver *, Lit, CRef) { work(); disturb(); }
 extern "C" bool stub_simplify(CoreSMTSolver *) { work(); disturb(); return nondet_bool(); }
@@ -97,8 +101,13 @@ static uint32_t dummy_clause[8];
 extern "C" Clause * stub_caIndex(ClauseAllocator *, CRef) { return reinterpret_cast<Clause *>(dummy_clause); }
 extern "C" uint32_t stub_computeGlue(CoreSMTSolver *, vec<Lit> const *) { return nondet_u8() & 3; }
 extern "C" void stub_pushCRef(vec<CRef> *, CRef const *) { work(); }
-static int order_cell;
-extern "C" int * stub_orderIndex(void *, Var const *) { order_cell = nondet_u8() & 3; return &order_cell; }
+// assumptions_order: one fixed (symbolic) frame index per variable, as MainSolver::solve_ fills it
+static int order_cell; static uint8_t g_order[8]; static bool g_order_set[8];
+extern "C" int * stub_orderIndex(void *, Var const * v) {
+    int i = *v & 7;
+    if (!g_order_set[i]) { g_order[i] = nondet_u8() & 3; g_order_set[i] = true; }
+    order_cell = g_order[i]; return &order_cell;
+}
 
 static void * fake_vt[64];
 // raw, typed storage: no constructor or destructor of the solver ever runs
@@ -139,6 +148,7 @@ extern "C" void h_search() {
     *reinterpret_cast<void **>(&s->resolutionProof) = nondet_bool() ? (void *)fake_proof : nullptr;
 
     g_polls = g_stop_seen = g_work_after_stop = g_cancel0_after_stop = g_end_after_stop = g_end_calls = 0;
+    g_final_calls = g_final_n = 0;      // g_order_set starts all-false (static storage, one call per run)
     g_level = 0; g_zero_calls = g_zero_after_stop = 0; g_complete_ok = 0; g_last_pick_undef = 0; g_confl_pending = 0; g_ok_at_stop = 1; g_bt0 = 0;
 
     int nof_conflicts = (int)(nondet_u8() & 3) - 1;
@@ -157,6 +167,20 @@ extern "C" void h_search() {
         if (g_polls >= 3 && g_level == 0) { VWITNESS("search-stopped-late"); }
     } else {
         VASSERT(g_end_calls == 0, "notifyEnd only on the stop path");
+    }
+    if (g_final_calls > 0) {
+        // MainSolver::solve_ assumes the NEGATED activation literal of every live frame (C04 h_assumptions), analyzeFinal returns
+        // negations of assumptions (C01 analyze_final): the live frames taking part in the conflict are its POSITIVE literals.
+        // The frame reported unsat must be the one right above the deepest of them (0 + 1 if none takes part).
+        int deepest = 0; bool all_read = true;
+#define FINAL_LIT(i) if (g_final_n > i && !sign(g_final[i])) { int v = var(g_final[i]) & 7; if (!g_order_set[v]) all_read = false; else if (g_order[v] > deepest) deepest = g_order[v]; }
+        FINAL_LIT(0) FINAL_LIT(1)
+        VASSERT(g_final_calls == 1 && res == l_False, "a falsified assumption ends the search with l_False after one final-conflict analysis");
+        VASSERT(s->conflict_frame == deepest + 1, "conflict_frame = 1 + deepest live frame whose activation literal occurs in the final conflict");
+        VASSERT(all_read, "the frame of every live activation literal of the final conflict is taken into account");
+        if (g_final_n == 2 && !sign(g_final[0]) && sign(g_final[1]) && deepest > 0) { VWITNESS("final-conflict-mixed-polarity"); }
+    } else {
+        VASSERT(s->conflict_frame == 0, "conflict_frame is only set from a final conflict over the assumptions");
     }
     if (res == l_False) {
         VASSERT(g_zero_calls == 1 && !s->ok && !g_stop_seen, "l_False only through the zero-level conflict handler, never after a stop");
